@@ -85,11 +85,16 @@ def run(prop, seed, run_rules, only=None):
             sdk = None
             try:
                 facts = Facts(extract.program_facts(repo=root, scratch_out=out))
-                mod_needs_sdk = any(ed_file.startswith("rust-sdk/") for ed_file in [x["file"] for x in (e.get("edits") or [e])]) or prop == "C20"
-                if mod_needs_sdk:
+                import importlib
+                from rules import crosschecks as _cx
+                touches_sdk = any(ed_file.startswith("rust-sdk/") for ed_file in [x["file"] for x in (e.get("edits") or [e])])
+                needs_sdk = getattr(importlib.import_module("rules.%s" % prop), "NEEDS_SDK", False) or prop in _cx.NEEDS_SDK
+                if touches_sdk:
                     out2 = os.path.join(base, "facts-sdk")
                     shutil.rmtree(out2, ignore_errors=True)
                     sdk = Facts(extract.sdk_facts(repo=root, scratch_out=out2))
+                elif needs_sdk:
+                    sdk = Facts(extract.sdk_facts())     # the edit leaves the SDK alone: the unchanged tree's SDK facts
             except extract.AnalysisIncomplete as ex:
                 res["failed"].append("%s: edited copy does not compile: %s" % (e["id"], str(ex)[-300:]))
                 continue
